@@ -254,7 +254,7 @@ FOREIGN_FMT = {
     "thdm": "Block MSOFT Q= 1.00000000E+03\n     1     1.00000000E+02\nBlock HMIX Q= 5.00000000E+02\n"
             "     2     4.00000000E+01\nBlock AE Q= 5.00000000E+02\n  2 2   1.0\n",
 }
-OPS = ["R1", "R2", "R3", "R4", "R5", "R6", "R7", "R8", "R9", "R10", "R11", "R12", "R13"]
+OPS = ["R1", "R2", "R3", "R4", "R5", "R6", "R7", "R8", "R9", "R10", "R11", "R12", "R13", "R14"]
 
 
 def gen_ops(text, fmt, op, cap):
@@ -425,8 +425,52 @@ def gen_ops(text, fmt, op, cap):
             new = list(L)
             new[a], new[c] = L[c], L[a]
             yield "swapln", a, join(new)
+    elif op == "R14":
+        # split a scale-dependent block into two pieces (every way of distributing its keys for blocks of <= 4 keys,
+        # otherwise every single key isolated in the first / in the last piece) and put the SAME block at ANOTHER
+        # scale, with other values for ALL keys, before / between / after the pieces (never after the last HMIX)
+        if fmt != "slha" or ql is None:
+            return
+        eff = {}
+        for bi, li, blk, key, val, ti in M.assignments(None, fmt, f):
+            if M.READ[fmt][blk][1]:
+                eff.setdefault(blk, {})[key] = float(val)
+        for bi, b in readb:
+            shape, scaled = M.READ[fmt][b.name]
+            if not scaled:
+                continue
+            ents = [li for li in b.data if M.entry(f.lines[li], shape)]
+            for var, pos, new in _split_interleave(L, f, b, ents, eff[b.name], ql, cap):
+                yield var, pos, join(new)
     else:
         raise InfraError("unknown operator " + op)
+
+
+def key_splits(n):
+    """ways to distribute n keys over two non-empty pieces: index sets of the SECOND piece"""
+    if n < 2:
+        return []
+    if n <= 4:
+        return [frozenset(c) for r in range(1, n) for c in itertools.combinations(range(n), r)]
+    return [frozenset([i]) for i in range(n)] + [frozenset(range(n)) - {i} for i in range(n)]
+
+
+def _split_interleave(L, f, b, ents, effkeys, ql, cap):
+    hdr = _hdr_copy(f.lines[b.hdr])
+    for qv, q2 in (("q+1", ql + 1.0), ("q/2", ql * 0.5)):
+        oth = ["Block %s Q= %s   # same block at another scale, other values" % (b.name, repr(q2))]
+        for key, v in sorted(effkeys.items()):
+            oth.append("  %s   %s" % (" ".join("%d" % k for k in key), repr(v * 1.5 + 7.0)))
+        for where in ("between", "before+between", "between+after", "before", "after"):
+            if b.name == "HMIX" and "after" in where:
+                continue          # a later HMIX block would change the deciding scale
+            for sp in thin(key_splits(len(ents)), cap):
+                second = {ents[i] for i in sp}
+                p1 = [L[i] for i in range(b.hdr, b.end) if i not in second]
+                p2 = [hdr] + [L[i] for i in sorted(second)]
+                new = L[:b.hdr] + (oth if "before" in where else []) + p1 + (oth if "between" in where else []) \
+                    + p2 + (oth if "after" in where else []) + L[b.end:]
+                yield "%s.%s@%s" % (b.name, where, qv), (b.hdr, tuple(sorted(sp))), new
 
 
 def _w_expand(task):
@@ -599,6 +643,22 @@ def build_scale_family():
             cases.append(("AU missing at the deciding scale %r" % (perm,),
                           mk([groups[j][nm] for j in perm for nm in names if not (nm == "AU" and j == lastj)]),
                           lastj, refs_noau, perm))
+    # split x other scale: the block of the deciding scale in two pieces (all key distributions for small blocks, each
+    # single key isolated first/last otherwise) with the same block of ANOTHER scale before / between / after the pieces
+    for jo, jl in itertools.permutations(range(3), 2):
+        for nm in names:
+            lines = groups[jl][nm]
+            for sp in key_splits(len(lines) - 1):
+                p2 = [lines[0]] + [lines[1 + i] for i in sorted(sp)]
+                p1 = [lines[0]] + [lines[1 + i] for i in range(len(lines) - 1) if i not in sp]
+                for where in ("between", "before+between", "between+after"):
+                    if nm == "HMIX" and "after" in where:
+                        continue
+                    o = groups[jo][nm]
+                    blocks = [groups[jo][x] for x in names if x != nm] + [groups[jl][x] for x in names if x != nm]
+                    blocks += ([o] if "before" in where else []) + [p1] + [o] + [p2] + ([o] if "after" in where else [])
+                    cases.append(("split %s, other scale %s (%d, %d) second piece %s" % (nm, where, jo, jl, sorted(sp)),
+                                  mk(blocks), jl, refs, (jo, jl)))
     return refs, refs_noau, cases, qs
 
 
@@ -848,6 +908,143 @@ def key_tables(ctx, stats, fails):
     stats["keys_perturbed"] = ntested
 
 
+# ----------------------------------------------------------------------------- deletions / defaults
+def default_dump(fmt):
+    p = subprocess.run([_W["mirror"]], input=b"D %s 0\n" % fmt.encode(), stdout=subprocess.PIPE, stderr=subprocess.PIPE)
+    d = re.findall(r"BEGIN \w+\n(.*?)END\n", p.stdout.decode("latin-1"), re.S)
+    if p.returncode != 0 or len(d) != 1:
+        raise InfraError("cli_mirror cannot dump the default-constructed objects")
+    return parse_dump(d[0])
+
+
+def delete_keys(text, fmt, blk, keys):
+    """remove every assignment line of (blk, key) for key in keys from the blocks that are read"""
+    f = M.parse(text)
+    L = text.split("\n")[:-1]
+    drop = {a[1] for a in M.assignments(None, fmt, f) if a[2] == blk and a[3] in keys}
+    return "\n".join(l for i, l in enumerate(L) if i not in drop) + "\n"
+
+
+def deletions(ctx, stats, fails, pmap):
+    """a key that is absent must behave like the documented default written explicitly (GM2CalcConfig, README table;
+    MASS[24] -> SMINPUTS[9]); where nothing is documented the parameter must keep the value of the default-constructed
+    object and NOTHING ELSE may change.  singles and pairs within a block; all subsets for GM2CalcConfig, VCKMIN,
+    GM2CalcInput (SLHA mode) and the README keys of SMINPUTS"""
+    examples = [("slha", "input/example.slha"), ("gm2calc", "input/example.gm2"), ("thdm", "input/example.thdm")]
+    ncase = 0
+    # ---- A: documented defaults, compared through the program AND the reader ---------------------------
+    tasks, meta = [], []
+    for fmt, rel in examples:
+        text = _nl(open(os.path.join(REPO, rel)).read())
+        cont = M.content(text, fmt)
+        full = text
+        for k in range(7):      # every entry explicit, with its current effective value
+            v = cont.get(("GM2CALCCONFIG", (k,)))
+            full, _ = set_value(full, fmt, "GM2CALCCONFIG", (k,), "%d" % (M.config_default(fmt, k) if v is None else int(v)))
+        for r in range(1, 8):
+            for S in itertools.combinations(range(7), r):
+                absent = delete_keys(full, fmt, "GM2CALCCONFIG", {(k,) for k in S})
+                dflt = full
+                for k in S:
+                    dflt, _ = set_value(dflt, fmt, "GM2CALCCONFIG", (k,), "%d" % M.config_default(fmt, k))
+                ofmt = out_format(fmt, M.content(dflt, fmt))
+                tasks.append((fmt, ofmt, [absent, dflt]))
+                meta.append(("GM2CalcConfig%s" % list(S), fmt, "delete:%s:GM2CALCCONFIG%s" % (fmt, list(S)),
+                             "README default(s) %s" % [M.config_default(fmt, k) for k in S]))
+        if fmt == "slha" and ("SMINPUTS", (9,)) in cont and ("MASS", (24,)) in cont:
+            f = M.parse(text)
+            tok = [a[4] for a in M.assignments(None, fmt, f) if a[2] == "SMINPUTS" and a[3] == (9,)][-1]
+            a_, _ = set_value(text, fmt, "MASS", (24,), tok)
+            tasks.append((fmt, out_format(fmt, cont), [delete_keys(text, fmt, "MASS", {(24,)}), a_]))
+            meta.append(("MASS[24]", fmt, "delete:slha:MASS[24]", "README: SMINPUTS[9] is used when MASS[24] is not given"))
+        if fmt == "thdm":
+            for r in range(1, 5):
+                for S in itertools.combinations((1, 2, 3, 4), r):
+                    zero = text
+                    for k in S:
+                        zero, _ = set_value(zero, fmt, "VCKMIN", (k,), "0")
+                    tasks.append((fmt, out_format(fmt, cont), [delete_keys(text, fmt, "VCKMIN", {(k,) for k in S}), zero]))
+                    meta.append(("VCKMIN%s" % list(S), fmt, "delete:thdm:VCKMIN%s" % list(S),
+                                 "no documented default; an absent Wolfenstein parameter is compared with an explicit 0"))
+    for (what, fmt, fkey, why), (a, d) in zip(meta, pmap(_w_eval, tasks)):
+        ncase += 1
+        ctx.evals(2)
+        ctx.nontrivial(("delete-documented", fmt, what.split("[")[0], len(what.split(","))))
+        if (a[0], a[1]) != (d[0], d[1]) or a[3] != d[3]:
+            det = ("exit %r stdout %s vs exit %r stdout %s" % (a[0], _short(a[1]), d[0], _short(d[1]))
+                   if (a[0], a[1]) != (d[0], d[1]) else "reader: " + _dump_diff(d[3], a[3]))
+            fails.append((fkey, "%s input: %s absent must equal the default written explicitly (%s), but: %s"
+                          % (fmt, what, why, det), {"kind": "delete", "fmt": fmt}))
+    # ---- B: no documented default: parameter keeps the default-constructed value, nothing else moves ---------
+    bases = examples + [("thdm", "test/test_points/thdm_gauge-basis.in")]
+    nodoc = set()
+    required = set()
+    for fmt, rel in bases:
+        text = _nl(open(os.path.join(REPO, rel)).read())
+        cont = M.content(text, fmt)
+        ddef = default_dump(fmt)
+        byblk = {}
+        for (f_, blk, key) in sorted(k for k in list(M.DOC) + list(M.DOC_EX) if k[0] == fmt):
+            names, tr = M.DOC.get((fmt, blk, key)) or M.DOC_EX[(fmt, blk, key)]
+            if blk == "GM2CALCCONFIG" or tr == "ckm" or (blk, key) not in cont:
+                continue
+            if names == ["TB"]:
+                required.add("%s:%s[%d]" % (fmt, blk, key[0]))     # tan(beta): no default is a model
+                continue
+            byblk.setdefault(blk, []).append((key, names, tr))
+            if not (fmt == "slha" and blk == "MASS" and key == (24,)):
+                nodoc.add("%s:%s" % (fmt, blk))
+        sets = []
+        for blk, ks in sorted(byblk.items()):
+            sets += [(blk, (k,)) for k in ks] + [(blk, c) for c in itertools.combinations(ks, 2)]
+            if blk == "SMINPUTS":          # all subsets of the README keys
+                rk = [k for k in ks if (fmt, blk, k[0]) in M.DOC]
+                sets += [(blk, c) for r in range(3, len(rk) + 1) for c in itertools.combinations(rk, r)]
+        items = [(fmt, text)] + [(fmt, delete_keys(text, fmt, blk, {k[0] for k in S})) for blk, S in sets]
+        chunks = [items[i:i + 200] for i in range(0, len(items), 200)]
+        dumps = [parse_dump(d) for ch in pmap(_w_mirror, [(c, "F") for c in chunks]) for d in ch]
+        dfull = dumps[0]
+        if "EXC" in dfull:
+            raise InfraError("cli_mirror cannot fill " + rel)
+        for (blk, S), dd in zip(sets, dumps[1:]):
+            ncase += 1
+            ctx.evals(1)
+            what = "+".join("%s[%s]" % (blk, ",".join(map(str, k[0]))) for k in S)
+            fkey = "delete:%s:%s" % (fmt, what)
+            if "EXC" in dd:
+                fails.append((fkey, "%s input (%s): without %s the reader throws %r" % (fmt, rel, what, dd["EXC"]),
+                              {"kind": "delete", "fmt": fmt}))
+                continue
+            exp, allowed = {}, set()
+            for key, names, tr in S:
+                for n in names:
+                    exp[n] = ddef.get(n)
+                if fmt == "slha" and blk == "MASS" and key == (24,) and ("SMINPUTS", (9,)) in cont:
+                    exp["MVWm"] = float(cont[("SMINPUTS", (9,))]).hex()
+                if fmt == "slha" and blk == "SMINPUTS" and key == (9,) and cont.get(("MASS", (24,))):
+                    exp["MVWm"] = dfull["MVWm"]          # overridden by MASS[24] anyway
+                if (fmt, blk, key) in VEV:
+                    allowed |= {"vd", "vu"}
+                if tr == "abs":
+                    allowed |= {n for n in dd if n.startswith("ZN")}
+            problems = []
+            for n, e in sorted(exp.items()):
+                if dd.get(n) != e and not (e is not None and n in dd and float.fromhex(dd[n]) == float.fromhex(e)):
+                    problems.append("%s is %s, the default-constructed value is %s" % (n, _hx(dd.get(n)), _hx(e)))
+            for n in sorted(n for n in set(dfull) | set(dd) if dfull.get(n) != dd.get(n) and n not in exp and n not in allowed):
+                if n == "TB" and "vd" in allowed and ulps(float.fromhex(dfull[n]), float.fromhex(dd[n])) <= 4:
+                    continue
+                problems.append("%s changed %s -> %s although its key is still in the file" % (n, _hx(dfull.get(n)), _hx(dd.get(n))))
+            if problems:
+                fails.append((fkey, "%s input (%s): with %s removed: %s" % (fmt, rel, what, "; ".join(problems[:4])),
+                              {"kind": "delete", "fmt": fmt}))
+            else:
+                ctx.nontrivial(("delete", fmt, blk, len(S)))
+    stats["deletion_cases"] = ncase
+    stats["blocks_without_documented_default"] = sorted(nodoc)
+    stats["keys_without_any_default"] = sorted(required)
+
+
 # ----------------------------------------------------------------------------- rejection clause
 def rejection(ctx, pool, bases, stats, cap_tp):
     tasks, meta = [], []
@@ -948,6 +1145,10 @@ def run(ctx):
         key_tables(ctx, stats, kfails)
         for k, what, data in kfails:
             ctx.fail(k, what, data)
+        dfails = []
+        deletions(ctx, stats, dfails, pool.map)
+        for k, what, data in dfails:
+            ctx.fail(k, what, data)
         scale_family(ctx, pool, stats)
         isolated = isolation(ctx, pool, bases, stats)
         if not isolated:
@@ -983,6 +1184,8 @@ def run(ctx):
     ctx.note("candidates_dropped_because_model_says_content_changes", stats["dropped_by_model"])
     ctx.note("new_states_per_operator", dict(sorted(stats["per_op"].items())))
     ctx.note("states_merged_same_text", stats["merged"])
+    for k in ("deletion_cases", "blocks_without_documented_default", "keys_without_any_default"):
+        ctx.note(k, stats.get(k, 0))
     for k in ("scale_cases", "keys_perturbed", "bad_token_cases", "config_cases", "isolation_sequences",
               "isolation_files_compared", "isolation_rewritten_states"):
         ctx.note(k, stats.get(k, 0))
@@ -1008,7 +1211,11 @@ def run(ctx):
         "a base read in a process of its own; plus file sequences in ONE process (scale family A,B / A,B,A / multi-scale, the "
         "three formats in all orders, test points alternating, rewritten states between foreign files) with a fresh and with "
         "one re-used GM2_slha_io, each dump compared bitwise with a one-file process; "
-        "plus 72 multi-scale files, one perturbation per documented key, 12 bad tokens at every key/value/Q position of the blocks "
+        "R14 = scale-dependent block split in two pieces (all key distributions for <=4 keys, else each key isolated "
+        "first/last) x the same block at another Q before/between/after the pieces; deletions: every subset of GM2CalcConfig / "
+        "VCKMIN entries absent == default (0) written explicitly, MASS[24] absent == SMINPUTS[9], every single and pair of "
+        "documented keys of a block removed => parameter has the default-constructed value and nothing else changes; "
+        "plus the multi-scale family (72 layouts + split x other-scale layouts), one perturbation per documented key, 12 bad tokens at every key/value/Q position of the blocks "
         "that are read (quick: examples + 2 test points with 12 positions), 8 invalid values per GM2CalcConfig entry; "
         "distinct = (format, depth, operator, variant) on bases that print a number, documented keys, (block, position kind, bad token), "
         "scale layouts" % ((("1", "2", "no depth 3") if ctx.quick else
@@ -1034,6 +1241,17 @@ def replay(ctx, path):
         if (a[0], a[1]) != (b[0], b[1]) or a[3] != b[3]:
             if a[3] != b[3]:
                 print("replay: reader parameters differ: " + _dump_diff(a[3], b[3]))
+            print("VIOLATION property=C13 replay=%s" % path)
+            return 1
+        print("replay: holds now")
+        return 0
+    if kind == "delete":
+        dfails = []
+        deletions(ctx, {}, dfails, lambda fn, xs: [fn(x) for x in xs])
+        bad = [v for v in dfails if v[0] == rec["key"]]
+        for k, what, _ in bad:
+            print("replay: " + what)
+        if bad:
             print("VIOLATION property=C13 replay=%s" % path)
             return 1
         print("replay: holds now")
